@@ -20,6 +20,10 @@ pub fn permutation_check(_w: &mut World, _uuid: &str, _t: &[(String, Option<Stri
     Ok(())
 }
 #[cfg(feature = "real")]
+pub fn synthetic_trees(_w: &mut World) -> Res {
+    Ok(())
+}
+#[cfg(feature = "real")]
 pub fn identifier_checks(_w: &mut World, _uuid: &str, _t: &[(String, Option<String>, bool)]) -> Res {
     Ok(())
 }
@@ -28,12 +32,61 @@ pub fn identifier_checks(_w: &mut World, _uuid: &str, _t: &[(String, Option<Stri
 /// prefix (parents may still be dangling) winner and leaves must equal the reference rule.
 #[cfg(not(feature = "real"))]
 pub fn permutation_check(w: &mut World, uuid: &str, t: &[(String, Option<String>, bool)]) -> Res {
+    permutation_check_with(w, uuid, t, false)
+}
+
+/// "Any shape": revision sets no history of the library's own calls produces (but a foreign block or a
+/// replayed stage may contain) — children of resolution markers and of deletions, several creation
+/// revisions, parents that are never recorded, equal digests under different parents — built with the
+/// identifier rule and learned in every order (up to 6 revisions), against the reference rule.
+#[cfg(not(feature = "real"))]
+pub fn synthetic_trees(w: &mut World) -> Res {
+    let mut rng = Rng::derive(w.cfg.seed ^ ((w.step as u64) << 20), 0x5EED7);
+    let pool: Vec<String> = (0..4).map(|i| sha_hex(format!("content{}", (w.cfg.seed as usize + i) % 9).as_bytes())).collect();
+    for k in 0..2 {
+        let n = 2 + rng.below(5);
+        let mut t: Vec<(String, Option<String>, bool)> = vec![];
+        for _ in 0..n {
+            let digest: String = match rng.below(9) {
+                0 | 1 => "d".to_string(),
+                2 | 3 => "r".to_string(),
+                4 => "1f600".to_string(),
+                _ => rng.pick(&pool).clone(),
+            };
+            let entry = if t.is_empty() || rng.chance(1, 6) {
+                if rng.chance(2, 3) {
+                    (format!("1-{}", rng.pick(&pool)), None)
+                } else {
+                    // the parent is never recorded
+                    let ghost = Rev::parse(&format!("1-{}", sha_hex(b"ghost"))).unwrap();
+                    let g2 = if rng.chance(1, 2) { ghost.child(&pool[0]) } else { ghost };
+                    (g2.child(&digest).text(), Some(g2.text()))
+                }
+            } else {
+                let p = t[rng.below(t.len())].0.clone();
+                (Rev::parse(&p).unwrap().child(&digest).text(), Some(p))
+            };
+            if !t.iter().any(|x| x.0 == entry.0) {
+                t.push((entry.0, entry.1, false));
+            }
+        }
+        w.bump("probe.tree_synthetic");
+        if t.iter().any(|(_, p, _)| p.as_ref().map_or(false, |p| Rev::parse(p).map_or(false, |x| x.is_resolved()))) {
+            w.bump("probe.tree_synthetic_child_of_marker");
+        }
+        permutation_check_with(w, &format!("synthetic-{}", k), &t, true)?;
+    }
+    Ok(())
+}
+
+#[cfg(not(feature = "real"))]
+fn permutation_check_with(w: &mut World, uuid: &str, t: &[(String, Option<String>, bool)], force_all: bool) -> Res {
     if t.len() < 2 || t.len() > 40 {
         return Ok(());
     }
     let mut rng = Rng::derive(w.cfg.seed ^ w.step as u64, crate::rng::fnv64(uuid.as_bytes()));
     // small trees: every insertion order (at every third step); larger ones: reverse + seeded orders
-    let exhaustive = t.len() <= 5 && w.step % 3 == 0;
+    let exhaustive = (t.len() <= 5 && w.step % 3 == 0) || (force_all && t.len() <= 6);
     let all: Vec<Vec<usize>> = if exhaustive { all_orders(t.len()) } else { vec![] };
     if exhaustive {
         w.bump("probe.tree_all_orders");
